@@ -5,7 +5,8 @@
    "Fitted values follow the permutation": C08_fitted_follow_permutation proves that EVERY minimiser of the reordered
    problem is the reordered minimiser; uniqueness is a theorem (K + jI spd, concave likelihood term => strictly convex
    function-space objective; thm/C08UniqThm.v, instantiated at R with the generated nn_term in thm/C08UniqR.v).
-   Partial (kept visible): existence of the minimiser is not proved.  The nearest-neighbour search is
+   Partial (kept visible): existence of the minimiser is proved for the generated latent-coordinate loss
+   (C17_loss_has_unique_minimiser, thm/AExistThm.v) but not bridged to this function-space matrix form.  The nearest-neighbour search is
    a library contract (distance to the nearest other row; validated against brute force by C03/C14). *)
 From Coq Require Import Reals List ZArith Lra Permutation.
 From Coquelicot Require Import Coquelicot.
